@@ -1,9 +1,10 @@
 HOOK_COMMITS = []
 NOTES = "Every check: python3 check.py <id> --tier quick|thorough. Known findings: known_findings.json. See DESIGN.md."
 NOT_CLAIMED = {}
-BASE_NOTE = ("Trusted: Lean 4.33 kernel (axioms ⊆ propext, Classical.choice, Quot.sound; audited each run), tools/translate.py with translate_ctl.py / translate_export.py "
+BASE_NOTE = ("Trusted: Lean 4.33 kernel (axioms ⊆ propext, Classical.choice, Quot.sound; audited each run), tools/translate.py with translate_ctl.py / translate_export.py / translate_nom.py / translate_serde.py / translate_text.py "
              "(tables, layouts, value-codec arms, the control skeleton of lib.rs/v9.rs/ipfix.rs — constants, comparison operators, dispatch-arm orders, flags — and the V9/IPFIX "
-             "exporters statement by statement are REGENERATED from the source on every run and proved to be the model the theorems are about: Lemmas/G1Arms, G2Ctl, G3Export), "
+             "exporters statement by statement are REGENERATED from the source on every run and proved to be the model the theorems are about: Lemmas/G1Arms, G2Ctl, G3Export, G4Nom, Props/SerdeGen; a token fingerprint of every source file, the file set and Cargo.toml "
+             "ties the hand-written parts to exactly the text they were written against — any other text is a reported fallback and widens the correspondence search), "
              "the remaining hand-written model (nom combinators, record loops, options-data loops, common view loops: tied to the code by the correspondence run only), harness dump + driver reader.")
 import os, re
 _PROPS_DIR = os.path.join(os.path.dirname(os.path.abspath(__file__)), "..", "lean", "NetflowModel", "Props")
